@@ -1,8 +1,9 @@
 """C08  Expressions and constants evaluate to their documented mathematical value.
 
-Generated domain: programs for the 68000 target holding 20-40 typed expression trees, each observed in
-its own ORG slot through DC.Q (integers), DC.D (floats) or DC.B (strings) plus a DC.B EXPRTYPE(..)
-type byte, under a generated notation state (INTSYNTAX / RELAXED / RADIX).  Oracle: vf/exprmodel.py,
+Generated domain: programs for the 68000 (Motorola syntax), 8086/8051 (Intel syntax) or PowerPC (C syntax)
+target holding 12-40 typed expression trees, each observed in its own ORG slot through DC.Q/DQ (integers),
+DC.D/DQ (floats) or DC.B/DB (strings) plus an EXPRTYPE(..) type byte, under a generated notation state
+(INTSYNTAX / RELAXED / RADIX).  Oracle: vf/exprmodel.py,
 a reference evaluator written from doc/assembler-usage.md.  Expressions the model calls undefined
 must produce an error on their line; they are then removed and the rest is assembled again to read
 the values from the code file.
@@ -12,9 +13,11 @@ from vf import engine, asl, exprmodel as M
 from vf.gen import composite
 
 ID = "C08"
-RULE = ("case = one 68000 program: EQU/SET symbol definitions, then 12-40 items, each an expression tree (depth <= 6 "
-        "over all operators of the manual's table, all documented functions, boundary and random operands, "
-        "character constants, symbols) rendered with minimal or redundant parentheses in a notation state "
+RULE = ("case = one program (68000, 8086, 8051 or PowerPC: the three documented default syntaxes): EQU/SET symbol "
+        "definitions, then 12-40 items, each an expression tree (depth <= 6 over all operators of the manual's "
+        "table, all documented functions, boundary and random operands, character constants, symbols) or a flat "
+        "chain of 3-8 operands grouped by the rank table alone, rendered with minimal or redundant parentheses in a "
+        "notation state "
         "(RADIX 2..36, INTSYNTAX +/- notations, RELAXED ON/OFF) that may change between items; an expression is "
         "non-trivial if it has >= 2 operators of different rank, or a boundary operand, or a literal in a "
         "notation other than plain decimal, or is an expected error; expressions are distinct by (operator/"
@@ -45,8 +48,10 @@ ASSUMPTIONS = [
     "state (marker letters eaten by RADIX, 0oct/0hex leading zero, 0x/0b against Intel suffixes); notations "
     "removed by INTSYNTAX while RELAXED is ON are treated as neither usable nor absent; literals <= 2^63-1; "
     "float literals always carry a decimal point",
-    "string literals never contain NUL, ';', ',', '{', quotes are written \\h / \\i; a top-level string result is "
+    "string literals never contain NUL, '{', '}'; quotes are written \\h / \\i; a top-level string result is "
     "written with double quotes only (DC.B treats single-quoted multi character constants as integers)",
+    "where E is a digit (RADIX >= 15, 0hex notation) the text <digits>E+<digit> / <digits>E-<digit> (integer constant "
+    "plus term, or float constant) is not generated without a blank before the sign",
     "the manual's sentence that 08 is an error in C mode is not asserted (asl reads it in the default radix)",
 ]
 
@@ -68,7 +73,7 @@ CHARS = [c for c in range(33, 127) if c in M.RAW_OK]
 
 
 def budget(tier):
-    return dict(examples=2400 if tier == "quick" else 48000, shards=16)
+    return dict(examples=6400 if tier == "quick" else 128000, shards=16)
 
 
 # ------------------------------------------------------------------------------------ generator
@@ -375,6 +380,68 @@ class G:
             return 0
         return d.int(0, M.MAXI)
 
+    # ---- flat chains: operands joined by random operators, grouped by the rank table alone
+    def chain_tree(self, operands, ops):
+        """precedence climbing over the manual's rank table: lower rank binds tighter, equal ranks group
+        left to right; the renderer then needs no parentheses at all"""
+        pos = [0]
+
+        def parse(maxrank):
+            left = operands[pos[0]]
+            while pos[0] < len(ops) and M.RANK[ops[pos[0]]] <= maxrank:
+                op = ops[pos[0]]
+                pos[0] += 1
+                right = parse(M.RANK[op] - 1)
+                left = ["b", op, left, right, self.sp]
+            return left
+        return parse(99)
+
+    def int_chain(self):
+        d = self.d
+        n = d.int(3, 8)
+        self.sp = d.weighted([(6, 0), (2, 1)])
+        mild = ["+", "-", "*", "&", "|", "!", "&&", "||", "!!"] + CMPS
+        ops = [d.choice(ALLBIN) if d.bool(0.6) else d.choice(mild) for _ in range(n - 1)]
+        operands = []
+        for i in range(n):
+            prev = ops[i - 1] if i else None
+            nxt = ops[i] if i < n - 1 else None
+            if prev in ("<<", ">>"):
+                x = self.ilit(d.int(0, 63) if d.bool(0.5) else d.int(0, 8))
+            elif prev == "><":
+                x = self.ilit(d.int(1, 32))
+            elif prev == "^":
+                x = self.ilit(d.int(0, 5))
+            elif prev in ("/", "#"):
+                x = self.ilit(d.int(1, 50))
+            else:
+                x = self.ilit(d.int(0, 40) if d.bool(0.7) else self.int_mag())
+                if d.bool(0.12):
+                    x = ["u", "~~", x]
+                elif d.bool(0.1) and prev in [None] + mild and nxt in [None] + mild:
+                    x = ["u", "~", x]
+                elif d.bool(0.08) and prev != "+" and nxt != "+":
+                    x = ["s", [[d.choice(CHARS), 0]], 1]
+            operands.append(x)
+        return self.chain_tree(operands, ops)
+
+    def float_chain(self):
+        d = self.d
+        n = d.int(3, 6)
+        self.sp = d.weighted([(6, 0), (2, 1)])
+        ops = [d.choice(["+", "-", "*", "/", "^"]) for _ in range(n - 1)]
+        operands = []
+        for i in range(n):
+            prev = ops[i - 1] if i else None
+            if prev == "^":
+                operands.append(["f", d.choice(["2.0", "0.5", "3.0", "1.0", "0.0"])])
+            else:
+                operands.append(["f", d.choice(FLOAT_TEXTS[1:16])] if d.bool(0.8) else self.ilit(d.int(1, 9)))
+        t = self.chain_tree(operands, ops)
+        if d.bool(0.3):
+            t = ["b", d.choice(CMPS), t, ["f", d.choice(FLOAT_TEXTS[:12])], self.sp]
+        return t
+
     # ---- float expressions
     def float_expr(self, depth, top=False):
         d = self.d
@@ -530,16 +597,22 @@ def strategy_(d, tier):
     cpu = d.weighted([(4, "68000"), (2, "8086"), (1, "8051"), (2, "ppc403")])
     st = M.NotationState(CPUS[cpu][0])
     pre = gen_state_stmts(d, st, True) if d.bool(0.6) else []
-    maxdepth = d.weighted([(2, 2), (4, 3), (3, 4), (1, 5), (1, 6)])
-    nitems = d.int(12, 40 if maxdepth <= 2 else 30 if maxdepth == 3 else 20 if maxdepth == 4 else 12)
+    maxdepth = d.weighted([(2, 2), (4, 3), (3, 4), (1, 5), (1, 6)] if tier == "quick" else
+                          [(1, 2), (3, 3), (3, 4), (2, 5), (2, 6)])
+    hi = 40 if maxdepth <= 2 else 32 if maxdepth == 3 else 24 if maxdepth == 4 else 14
+    nitems = hi - d.int(0, hi - 12)        # zero draws (what the library favours) give full batches
     items = []
     for _ in range(nitems):
         it = {}
         if d.bool(0.12):
             it["st"] = gen_state_stmts(d, st, False)
-        t = d.weighted([(10, "i"), (5, "f"), (3, "s")])
+        t = d.weighted([(10, "i"), (5, "f"), (3, "s"), (4, "ic"), (1, "fc")])
         dep = d.int(0, maxdepth) if d.bool(0.3) else maxdepth
-        if t == "i":
+        if t == "ic":
+            e = g.int_chain()
+        elif t == "fc":
+            e = g.float_chain()
+        elif t == "i":
             e = g.int_expr(dep, top=True)
         elif t == "f":
             e = g.float_expr(dep, top=True)
@@ -775,10 +848,6 @@ def stmt_text(stmt):
     return "\tintsyntax\t" + ",".join(stmt[1])
 
 
-def top_needs_dq(node):
-    return True
-
-
 class Item:
     pass
 
@@ -853,7 +922,11 @@ def build(case):
         else:
             o.text_obs = o.text
         o.order = order
-        if kind == "s":
+        if kind is None:
+            # expected error: a context that accepts a value of any type, so that only the expression
+            # itself can be the reason for a message
+            lines.append("q_err%d\tset\t%s" % (idx, o.text_obs))
+        elif kind == "s":
             lines.append("\t%s\texprtype(%s)" % (opb, o.text_obs))
             lines.append("\t%s\t%s" % (opb, o.text_obs))
         elif kind == "f":
